@@ -14,24 +14,40 @@ def run_check(tier):
                         "observations compared by equality with the events A prescribes (bool of every request, target values, sentinel)"]
     quick = tier == "quick"
     # window 8: every alignment of keys/values against the window boundary with small documents
-    scen8 = mp.gen("MC_LoadScript", {"Mode": '"fields"', "MaxOps": 2 if quick else 3, "Widths": "{0, 5}" if quick else "{0, 1, 2, 5}",
-                                     "Pads": mp.tla_set([5] if quick else range(0, 9))},
-                   ["SentinelIntact", "UnchangedOnFailure", "Export"], "fields-w8", chk, timeout=3000, xmx="16g")
-    pairs = mp.replay(scen8, mp.MEDIA_SEEKABLE + ["nonseek"], 8, "f8")
+    # exhaustive: all request histories of length <= 2; thorough: every padding 0..8 (generated in slices to bound memory)
+    pad_slices = [[5]] if quick else [[0, 1, 2], [3, 4, 5], [6, 7, 8]]
+    scen8 = []
+    pairs = []
+    for ps in pad_slices:
+        part = mp.gen("MC_LoadScript", {"Mode": '"fields"', "MaxOps": 2, "Widths": "{0, 5}" if quick else "{0, 1, 2, 5}", "Pads": mp.tla_set(ps)},
+                      ["SentinelIntact", "UnchangedOnFailure", "Export"], "fields-w8-p%d" % ps[0], chk, timeout=3000, xmx="8g")
+        pp = mp.replay(part, mp.MEDIA_SEEKABLE + ["nonseek"], 8, "f8")
+        mp.judge(chk, pp, "MsgPack scripted load")
+        chk.add_cases(len(pp), distinct_keys=((json.dumps(s["doc"]), json.dumps(s["root"]), json.dumps(s["pol"])) for s in part), validated=len(pp))
+        scen8 = part[:50]
+        del pp, part
+    if not quick:
+        # longer histories (up to 6 requests) by seeded simulation of the same state machine
+        sim = mp.gen("MC_LoadScript", {"Mode": '"fields"', "MaxOps": 6, "Widths": "{0, 2}", "Pads": "{0, 3}"},
+                     ["SentinelIntact", "UnchangedOnFailure", "Export"], "fields-sim", chk, timeout=1800, xmx="8g", simulate=3000, depth=7)
+        pp = mp.replay(sim, mp.MEDIA_SEEKABLE, 8, "fs")
+        mp.judge(chk, pp, "MsgPack scripted load (long history)")
+        chk.add_cases(len(pp), distinct_keys=((json.dumps(s["doc"]), json.dumps(s["root"]), json.dumps(s["pol"])) for s in sim), validated=len(pp))
+        del pp, sim
     # real 256-byte window: paddings that move the object across the first boundary
-    scen256 = mp.gen("MC_LoadScript", {"Mode": '"fields"', "MaxOps": 1 if quick else 2, "Widths": "{0}",
+    scen256 = mp.gen("MC_LoadScript", {"Mode": '"fields"', "MaxOps": 1, "Widths": "{0}",
                                        "Pads": mp.tla_set([250, 253] if quick else range(243, 258))},
                      ["SentinelIntact", "UnchangedOnFailure", "Export"], "fields-w256", chk, timeout=3000, xmx="16g")
-    pairs += mp.replay(scen256, ["mem", "sstream", "short3", "nonseek"], 256, "f256")
+    pairs = mp.replay(scen256, ["mem", "sstream", "short3", "nonseek"], 256, "f256")
     mp.judge(chk, pairs, "MsgPack scripted load")
-    chk.add_cases(len(pairs), distinct_keys=((json.dumps(s["doc"]), json.dumps(s["root"]), json.dumps(s["pol"])) for s in scen8 + scen256),
+    chk.add_cases(len(pairs), distinct_keys=((json.dumps(s["doc"]), json.dumps(s["root"]), json.dumps(s["pol"])) for s in scen256),
                   validated=len(pairs))
     chk.sample({"scenario": {k: scen8[len(scen8) // 3][k] for k in ("doc", "root", "pol")}, "expected": scen8[len(scen8) // 3]["exp"]})
     del pairs, scen8, scen256
     # JSON archive: the same request scripts against documents rendered by the JSON spec (several styles / encodings)
-    jc.load_leg(chk, tier, "fields", {"MaxOps": 2 if quick else 3, "Widths": "{0, 3}" if quick else "{0, 1, 3, 4, 6}"},
+    jc.load_leg(chk, tier, "fields", {"MaxOps": 2, "Widths": "{0, 3}" if quick else "{0, 1, 3, 4, 6}"},
                 ["SentinelIntact", "UnchangedOnFailure", "Export"], label="JSON scripted load")
-    jc.load_leg(chk, tier, "fields", {"MaxOps": 2 if quick else 3, "Widths": "{0, 3}" if quick else "{0, 1, 2, 3, 5}"},
+    jc.load_leg(chk, tier, "fields", {"MaxOps": 2, "Widths": "{0, 3}" if quick else "{0, 1, 2, 3, 5}"},
                 ["SentinelIntact", "UnchangedOnFailure", "Export"], label="XML scripted load", arch="xml")
     return chk.finish()
 
